@@ -346,7 +346,7 @@ Lemma ideal_guarded : forall cfg a, forallb (stage_guarded cfg) (ideal_stages a)
 Proof.
   intros cfg a. unfold ideal_stages, attempt_path.
   rewrite !map_app, !forallb_guarded_app.
-  destruct (a_tls_immediately a), (a_starttls a), (a_auth a), (a_reject a); cbn;
+  destruct (a_tls_immediately a), (a_starttls a), (a_auth a), (a_reject a), (a_helo a); cbn;
     rewrite ?andb_true_r; try reflexivity;
     (induction (a_nrcpt a) as [|n IHn]; [reflexivity|cbn; exact IHn]).
 Qed.
@@ -356,14 +356,14 @@ Proof. intros A B f x n. induction n as [|n IH]; [reflexivity|cbn; rewrite IH; r
 
 Lemma ideal_sum : forall cfg a, sum_limits cfg (ideal_stages a) = attempt_limit cfg a.
 Proof.
-  intros cfg a. destruct a as [ti st au pi lm rj n].
+  intros cfg a. destruct a as [ti st au pi lm rj n he].
   unfold attempt_limit. remember (N.of_nat (n_command_stages _)) as K eqn:HK.
   unfold n_command_stages in HK.
   unfold ideal_stages, attempt_path.
-  cbn [a_tls_immediately a_starttls a_auth a_pipelining a_lmtp a_reject a_nrcpt] in *.
+  cbn [a_tls_immediately a_starttls a_auth a_pipelining a_lmtp a_reject a_nrcpt a_helo] in *.
   rewrite !map_app, !sum_limits_app, map_repeat'.
   rewrite (sum_limits_repeat cfg _ n (t_command cfg)) by reflexivity.
-  destruct ti, st, au, rj; cbn [andb negb] in HK; cbn; lia.
+  destruct ti, st, au, rj, he; cbn [andb negb] in HK; cbn; lia.
 Qed.
 
 (* the delivery attempt of the relay client, with the scopes read from a table that
@@ -395,7 +395,7 @@ Proof. vm_compute. repeat split; reflexivity. Qed.
 
 (* examples: the hypotheses are satisfiable by non-trivial values *)
 Definition ex_cfg : ccfg := {| t_connect := 50; t_command := 100; t_data := 300; t_single := 0 |}.
-Definition ex_acfg : acfg := mk_acfg false false false true false false 2.
+Definition ex_acfg : acfg := mk_acfg false false false true false false 2 false.
 
 Example attempt_bound_example :
   forallb (stage_guarded ex_cfg) (ideal_stages ex_acfg) = true
